@@ -69,8 +69,8 @@ def extract():
     common.repo_on_path()
     from Pyro5 import server
     text = _extract_facts()
-    trans = py2lean.translate_function(server, open(server.__file__).read(), "is_private_attribute",
-                                       "is_private_attribute", ["str"])
+    trans = py2lean.translate_function(server, _string_domain_source(open(server.__file__).read(), "is_private_attribute"),
+                                       "is_private_attribute", "is_private_attribute", ["str"])
     marker = "end Pyro.Gen.C02"
     i = text.rindex(marker)
     text = text[:i] + trans + text[i:]
@@ -265,6 +265,31 @@ def _dispatch_facts(tree):
     return [c.func.id for c in calls], [arg_text(c) for c in calls], [c[1] for c in consts]
 
 
+def _string_domain_source(source, func_name):
+    """the predicate restricted to its string domain: a leading guard `if not isinstance(<param>, str): raise ...` is the
+    NON-string branch (modelled by the probed fact privateGateNonStrTypeError) and is left out of the translation"""
+    tree = ast.parse(source)
+    fn = next(n for n in tree.body if isinstance(n, ast.FunctionDef) and n.name == func_name)
+    param = fn.args.args[0].arg
+    body = list(fn.body)
+    i = 1 if body and isinstance(body[0], ast.Expr) and isinstance(getattr(body[0], "value", None), ast.Constant) else 0
+
+    def is_guard(st):
+        if not (isinstance(st, ast.If) and not st.orelse and all(isinstance(x, ast.Raise) for x in st.body)):
+            return False
+        t = st.test
+        if isinstance(t, ast.UnaryOp) and isinstance(t.op, ast.Not):
+            t = t.operand
+        else:
+            return False
+        return isinstance(t, ast.Call) and getattr(t.func, "id", None) == "isinstance" and len(t.args) == 2 \
+            and getattr(t.args[0], "id", None) == param and getattr(t.args[1], "id", None) == "str"
+    while i < len(body) and is_guard(body[i]):
+        del body[i]
+    fn.body = body
+    return ast.unparse(fn) + "\n"
+
+
 def _extract_facts():
     common.repo_on_path()
     from Pyro5 import server
@@ -296,6 +321,19 @@ def _extract_facts():
         set_priv = not pr.ran(hidden, lambda o: sv._set_exposed_property_value(o, "_h", 0)) \
             and not pr.ran(hidden, lambda o: sv._set_exposed_property_value(o, "__format__", 0))
         table = [(code, pr.row(code)) for code in probe_codes()]
+        # non-string names at the privacy gate: TypeError for every one of them (isinstance guard), or AttributeError from
+        # `.startswith` for the hashable ones (int, None, float, tuple)?
+        def priv_err(v):
+            try:
+                sv.is_private_attribute(v)
+            except Exception as x:
+                return type(x).__name__
+            return "none"
+        hashable_errs = {priv_err(v) for v in (7, None, 1.5, True, ("m",), frozenset(["m"]))}
+        unhashable_errs = {priv_err(v) for v in (["m"], {"m": 1}, b"m")}
+        if unhashable_errs != {"TypeError"} or hashable_errs not in ({"TypeError"}, {"AttributeError"}):
+            raise RuntimeError("is_private_attribute on non-strings: %s / %s" % (sorted(hashable_errs), sorted(unhashable_errs)))
+        nonstr_type = hashable_errs == {"TypeError"}
     finally:
         pr.close()
     gate_calls, gate_args, consts = _dispatch_facts(tree)
@@ -319,6 +357,8 @@ def callGateTypeFirst : Bool := {lean_bool(type_first)}
 def getGatePrivate : Bool := {lean_bool(get_priv)}
 /-- PROBED: _set_exposed_property_value runs nothing for a marked property stored under a private / reserved name -/
 def setGatePrivate : Bool := {lean_bool(set_priv)}
+/-- PROBED: is_private_attribute raises TypeError for every non-string (else: AttributeError for int / None / float / tuple, TypeError for unhashables and bytes) -/
+def privateGateNonStrTypeError : Bool := {lean_bool(nonstr_type)}
 /-- gate functions called by Daemon.handleRequest, in source order (batch loop, attribute read, attribute write, normal call) -/
 def dispatchGateCalls : List String := {json.dumps(gate_calls)}
 /-- the argument lists of those calls; local names replaced by the role of the request field they hold -/
